@@ -28,3 +28,27 @@ chk("C03", "proof",
     "Theorems (Coq, closed): every interleaving of the workers' inserts of any chunking of a parallel scan yields the sequential result as a set, provided the scan body reads only relations it does not write (par_insert_confluent, interleavings enumerated soundly and completely). Tied by (a) validating on the emitted transformed RAM of every generated program that each PARALLEL mark sits on a query whose read and write relations are disjoint and that carries no guarded insert/erase, (b) outputs at -j1,2,3,4,8,16 and under perturbed schedules (hook H6) all equal to the proved oracle.",
     "Trusted: Coq kernel; par_marks_ok reader of --show=transformed-ram (python, not proved); OpenMP scheduling is perturbed, not enumerated; races inside the B-tree/brie inserts belong to C25/C27; compiled float sum order (finding F5) is outside the theorem.",
     "Coq confluence theorem for parallel set inserts + RAM-artefact validation + differential runs over thread counts and perturbed schedules", "DESIGN.md §6 C03")
+
+TV_NOTE = "Trusted: Coq kernel; extraction + S-expression reader; the generator's double rendering; fragment limits of the oracle (no mean, no float functors). The pipeline stage this property is about is NOT modelled: it is validated per generated program against the proved reference, nothing is proved about its code."
+
+chk("C02", "translation_validation",
+    "Per-program validation: every generated program is run by the interpreter, as single-file compiled executable (-c) and as multi-file one (-C); each output must equal the extracted reference evaluator, which is proved (Coq) to compute the unique stratified least model. The synthesiser's C++ emission and g++ are not modelled.",
+    TV_NOTE + " g++ 12 / OpenMP compile and run the synthesised code.",
+    "translation validation: differential against the Coq-proved reference evaluator", "DESIGN.md §6 C02")
+chk("C04", "translation_validation",
+    "Per-program validation: each switchable AST transformer disabled singly (-z), random subsets, random inline/no_inline markings of non-output relations; every run must equal the proved reference (stratified least model).",
+    TV_NOTE, "translation validation: metamorphic option sweep against the Coq-proved reference evaluator", "DESIGN.md §6 C04")
+chk("C05", "translation_validation",
+    "Per-program validation: --magic-transform=* , random relation subsets, exclusion lists and magic/no_magic qualifiers; every run must equal the proved reference (stratified least model). Nothing is proved about MagicSet.cpp.",
+    TV_NOTE, "translation validation: metamorphic option sweep against the Coq-proved reference evaluator", "DESIGN.md §6 C05")
+chk("C06", "translation_validation",
+    "Per-program validation: every RAM transformer skipped singly and in random subsets through hook H2 (interpreter -j4, some compiled); every run must equal the proved reference (stratified least model).",
+    TV_NOTE + " Hook H2 implements the skipping.", "translation validation: metamorphic pass-skipping sweep against the Coq-proved reference evaluator", "DESIGN.md §6 C06")
+chk("C07", "proof",
+    "Theorem (Coq, closed): permuting the body atoms of rules leaves the immediate-consequence operator, every iterate and the least fixpoint unchanged (fire_perm_invariant, for any rule set). Tied per program: random valid .plan directives (a permutation per version of each recursive clause) and a profile-guided --auto-schedule run must reproduce the proved reference's outputs.",
+    "Trusted: Coq kernel; the abstract rule semantics (fire) is not connected to ClauseTranslator by proof -- the join-order code is validated per program only; extraction + generator glue.",
+    "Coq theorem on join-order invariance of the abstract rule semantics + per-program differential over plans / auto-schedule", "DESIGN.md §6 C07")
+chk("C13", "proof",
+    "Theorems (Coq, closed): the executable stratification check accepts a stratum arrangement iff a level function exists (positive edges non-increasing, negation/aggregation edges strictly decreasing); a program in which a relation depends on itself through negation or aggregation is rejected under EVERY arrangement of its clauses. Tied by verdict comparison: generated well-formed programs must be accepted by souffle and the model check; the same programs with one injected defect (negation/aggregation cycle, ungrounded head/negated/constraint variable, type mismatch) must be rejected with status 1, a diagnostic, and no output file; cycle verdicts of the extracted check and souffle are compared.",
+    "Trusted: Coq kernel; groundedness and typing are not modelled (the injected defect's expected verdict is known by construction); python SCC computation proposes the arrangement the Coq check validates.",
+    "Coq characterisation of the stratification check + verdict correspondence on defect-injected programs", "DESIGN.md §6 C13")
